@@ -1035,7 +1035,7 @@ func configs(tier string) []*config {
 		depthG = 18
 	}
 	cs := []*config{
-		{name: "A-dict", keys: keysA, ops: dictOpsFor(keysA, othersA), vals: thorough},
+		{name: "A-dict", keys: keysA, ops: dictOpsFor(keysA, othersA)},
 		{name: "A-set", set: true, keys: keysA, ops: setOpsFor(keysA, othersA)},
 		{name: "B-dict-sym", keys: keysB, sym: true, ops: symOps(keysB, false), maxDepth: depthB},
 		{name: "B-set-sym", set: true, keys: keysB, sym: true, ops: symOps(keysB, true), maxDepth: depthB},
@@ -1045,6 +1045,11 @@ func configs(tier string) []*config {
 		{name: "D-set-sym-from-16-in-one-chain", set: true, keys: keysD, sym: true, prefill: 16, ops: symOps(keysD, true), maxDepth: depthD},
 		{name: "E-dict-sym-from-24-in-one-chain", keys: keysE, sym: true, prefill: 24, ops: symOps(keysE, false), maxDepth: depthE},
 		{name: "G-dict-sym-two-hash-classes", keys: keysG, sym: true, ops: opsNamed(symOps(keysG, false), "insert-fresh", "delete-last", "update-first"), maxDepth: depthG},
+	}
+	if thorough {
+		// the values as part of the state key (the table never inspects them; a defect that
+		// moved or dropped a value would): depth-bounded, the fixpoint search above ignores them
+		cs = append(cs, &config{name: "A-dict-with-values-in-the-state", keys: keysA, ops: dictOpsFor(keysA, othersA), vals: true, maxDepth: 6})
 	}
 	return cs
 }
@@ -1431,7 +1436,7 @@ func init() {
 		Replay: replay,
 		Assumptions: []string{
 			"visited states are remembered by the 128-bit SHA-256 digest of their canonical layout key (two states with the same digest would be merged; none is expected among fewer than 2^40 states); a search is cut, and reported as not exhaustive, at 40 million states",
-			"quick tier: dict values are not part of the state key (the table never inspects values); values are still compared on every explored transition; thorough includes them",
+			"dict values are not part of the state key of the fixpoint searches (the table never inspects values); values are still compared on every explored transition; thorough adds a depth-6 search of configuration A whose state key includes them",
 			"configuration B relies on key symmetry (keys are only observed through Hash and ==): states are canonicalised by renaming keys to their order position",
 		},
 		BudgetQuick: 300, BudgetThorough: 1200,
